@@ -336,14 +336,23 @@ func c18Store(c *Ctx) {
 		// ranges over the map on every path
 		in := c.traces(fi)
 		h := &Interp{P: c.P, Info: fi.Pkg.TypesInfo}
-		ranges := false
+		// every path that returns a listing walks the map in this call (a path that answers from a listing kept
+		// from an earlier call goes stale when a stored id is overwritten)
+		ranges := len(in.Traces) > 0
 		for _, t := range in.Traces {
+			if t.Exit != ExitReturn {
+				continue
+			}
+			walked := false
 			for _, e := range t.Ev {
-				if e.Kind == EvLoopBegin {
+				if e.Kind == EvLoopBegin || e.Kind == EvLoopEnd || e.Kind == EvLoopZero {
 					if rs, ok := e.LoopStmt.(*ast.RangeStmt); ok && h.objOf(rs.X) == packets {
-						ranges = true
+						walked = true
 					}
 				}
+			}
+			if !walked {
+				ranges = false
 			}
 		}
 		r.Check(fi.Name+":fresh listing of the map", !alias && ranges, fi.Decl.Pos(), ot.work, "the listing must be built from the map on every call (a cached or shared slice goes stale when an id is overwritten); origins: "+strings.Join(originStrings(os), ", "))
